@@ -108,7 +108,7 @@ func ServerHandle(rw netio.Conn, logger *zap.Logger, usernameByToken map[string]
 			_ = send400(rw)
 			return nil, conn.Addr{}, username, fmt.Errorf("failed to parse request target: %w", err)
 		}
-		return newServerConnectPendingConn(rw), targetAddr, username, nil
+		return newServerConnectPendingConn(rw, rwbr), targetAddr, username, nil
 	}
 
 	// Host -> targetAddr
@@ -126,17 +126,25 @@ func ServerHandle(rw netio.Conn, logger *zap.Logger, usernameByToken map[string]
 // serverConnectPendingConn implements [netio.PendingConn].
 type serverConnectPendingConn struct {
 	inner netio.Conn
+	br    *bufio.Reader
 }
 
 // newServerConnectPendingConn returns the connection wrapped as a [netio.PendingConn].
-func newServerConnectPendingConn(c netio.Conn) netio.PendingConn {
-	return serverConnectPendingConn{inner: c}
+//
+// br is the reader the request was parsed from. It may hold bytes the client sent
+// right behind the request head, which belong to the tunneled stream.
+func newServerConnectPendingConn(c netio.Conn, br *bufio.Reader) netio.PendingConn {
+	return serverConnectPendingConn{inner: c, br: br}
 }
 
 // Proceed implements [netio.PendingConn.Proceed].
 func (c serverConnectPendingConn) Proceed() (netio.Conn, error) {
 	if err := send200(c.inner); err != nil {
 		return nil, fmt.Errorf("failed to send 200 OK response: %w", err)
+	}
+	// Check if client spoke first.
+	if c.br.Buffered() > 0 {
+		return newReadBufferedNetioConn(c.inner, c.br), nil
 	}
 	return c.inner, nil
 }
